@@ -313,7 +313,11 @@ func (o *oracle) preVote(n *node, peer string, v *types.Vote) votePre {
 		}
 		pre.target = nr.cur.set(v.Round, v.Type)
 		pre.out = pre.target.add(v)
-	case v.Height+1 == rs.Height && rs.Step == cstypes.RoundStepNewHeight && v.Type == types.PrecommitType && nr.last != nil:
+	case v.Height+1 == rs.Height && rs.Step == cstypes.RoundStepNewHeight && v.Type == types.PrecommitType:
+		if nr.last == nil { // no reference for the previous height's commit (the node restarted during it)
+			pre.known = false
+			return pre
+		}
 		pre.target = nr.last
 		pre.lastC = true
 		pre.out = nr.last.add(v)
@@ -796,7 +800,9 @@ func (o *oracle) firstStore(n *node, h int64, meta *types.BlockMeta) *heightRec 
 			}
 		}
 	} else {
-		kernel.Harnessf("stored block %X at height %d was never registered by a proposer", meta.BlockID.Hash, h)
+		// the proposer died in the event in which it proposed and (holding > 2/3 alone) committed: nothing was ever sent
+		o.registerBlock(meta.BlockID, parts, "", n.id)
+		s.r.Probe("block_registered_from_store")
 	}
 	if int64(len(raw)) > o.twinParams[h].Block.MaxDataBytes {
 		// addProposalBlockPart decodes with MaxDataBytes as the limit
@@ -969,6 +975,42 @@ func (o *oracle) checkStoresAt(n *node, h int64, fresh bool) {
 		return
 	}
 	s.r.Probe("store_readback_checked")
+}
+
+// afterRestart: the node came back; everything it had stored must still read back, and the reference
+// vote tallies for its current height are unknown (its sets were rebuilt from its own WAL).
+func (o *oracle) afterRestart(n *node) {
+	s := o.s
+	top := n.bs.Height()
+	if top < n.storeH && n.storeH >= s.initialH {
+		s.fail("C41", "store_height_decreased", "n%d block store height is %d after restart, it had reached %d (SaveBlock ends with a synced write)", n.id, top, n.storeH)
+		return
+	}
+	// blocks it stored in the very event it died in have not been seen by the oracles yet
+	nr0 := o.nref(n)
+	nr0.cur, nr0.last = nil, nil
+	for h := n.storeH + 1; h <= top && !s.stop; h++ {
+		if h < s.initialH {
+			continue
+		}
+		o.newStoredBlock(n, h)
+		n.storeH = h
+	}
+	if s.stop {
+		return
+	}
+	o.sweepStores(n, "restart")
+	if s.stop {
+		return
+	}
+	rs := n.cs.GetRoundState()
+	vals := o.twinVals[rs.Height]
+	if vals == nil {
+		kernel.Harnessf("restart: no twin validator set for height %d (n%d)", rs.Height, n.id)
+	}
+	nr := o.nref(n)
+	nr.cur = newRefHVS(s.chainID, rs.Height, vals)
+	nr.cur.unknown = true
 }
 
 // sweepStores: full read-back of every height node n stored (restarts, end of run).
